@@ -50,3 +50,55 @@ Proof. exact try_send_other_queues. Qed.
 
 Print Assumptions C15_bytes_are_frames.
 Print Assumptions C15_prefix_on_failure.
+
+(* ---- the shared message-buffer budget: a connection whose write never completes cannot starve the others
+        (Model/WriteBudget.v; types pasted from Proofs/WriteBudgetProofs.v by tools/pin.py) ---- *)
+From NW Require Import Model.WriteBudget Proofs.WriteBudgetProofs Gen.Headroom.
+Local Open Scope nat_scope.
+
+Theorem C15_no_connection_ever_waits_for_a_message_buffer :
+  forall (c : wcfg) (evs : list wev), guarded c = true -> snd (wrun c nil evs) = None.
+Proof. exact guarded_never_waits. Qed.
+
+Theorem C15_buffers_in_use_bounded :
+  forall (c : wcfg) (evs : list wev),
+    guarded c = true ->
+    let s := fst (wrun c nil evs) in in_use s <= 2 * live s + headroom c /\ live s <= maxc c.
+Proof. exact guarded_reachable_bound. Qed.
+
+Theorem C15_unguarded_batches_starve_others_refuted :
+  let s := fst (wrun old_cfg nil old_witness) in
+    snd (wrun old_cfg nil old_witness) = None /\
+    get_slot s 1 = Some {| w_first := false; w_extras := 0 |} /\
+    wstep old_cfg s (WFirst 1) = WWaits /\
+    wstep old_cfg s WConnect = WWaits /\
+    (let c' := {| maxc := 3; headroom := 2; guarded := true |} in
+     let s' := fst (wrun c' nil old_witness) in
+     (exists s1 : wstate, wstep c' s' (WFirst 1) = WOk s1) /\
+     (exists s2 : wstate, wstep c' s' WConnect = WOk s2)).
+Proof. exact unguarded_starves. Qed.
+
+Theorem C15_unguarded_stuck_until_the_stalled_write_ends :
+  forall e : wev,
+    let s := fst (wrun old_cfg nil old_witness) in
+    match e with
+    | WFlush _ | WDrop _ => True
+    | _ => match wstep old_cfg s e with
+           | WOk _ => False
+           | _ => True
+           end
+    end.
+Proof. exact unguarded_stuck_until_flush. Qed.
+
+(* the conditions of that theorem, read off the CURRENT source by translator/headroom.py (coq/Gen/Headroom.v is
+   regenerated on every run): the pool holds two buffers per connection plus at least the head-room the permit
+   semaphore hands out; every buffer a write batch takes beyond its first is taken against a permit acquired without
+   waiting; the permits are kept with the batch and go back after the buffers *)
+Theorem C15_source_write_budget :
+  (2 <=? NW.Gen.Headroom.pool_per_connection)%N = true /\
+  (1 <=? NW.Gen.Headroom.permits_per_iovs)%N = true /\
+  (NW.Gen.Headroom.permits_per_iovs <=? NW.Gen.Headroom.pool_per_iovs)%N = true /\
+  NW.Gen.Headroom.extras_guarded = true /\
+  NW.Gen.Headroom.permits_kept_until_release = true /\
+  (3 <=? NW.Gen.Headroom.single_buffer_sites)%N = true.
+Proof. repeat split; reflexivity. Qed.
